@@ -2,7 +2,7 @@
 """Regenerates /verif/MANIFEST.json from checks_config.py (single source of truth)."""
 import json, os, subprocess, sys
 sys.path.insert(0, os.path.dirname(os.path.abspath(__file__)))
-from checks_config import PROPS, NOT_APPLICABLE, HOOK_COMMITS
+from checks_config import PROPS_CLAIMED as PROPS, NOT_APPLICABLE, HOOK_COMMITS
 
 ids = [json.loads(l)["id"] for l in open(os.path.join(os.path.dirname(os.path.abspath(__file__)), "properties.jsonl"))]
 checks = []
